@@ -32,6 +32,8 @@ def _umeyama(x, y, with_scale):
         return ("ok", np.array(r), np.array(t), float(c))
     except geometry.GeometryException as e:
         return ("refused", str(e))
+    except Exception as e:  # e.g. numpy's LinAlgError escaping
+        return ("crashed", "%s: %s" % (type(e).__name__, e))
 
 
 def centred_sse(x, y, R, t, c):
@@ -65,6 +67,10 @@ def judge(x, y, with_scale, gen=None, must_refuse=False, may_refuse=False):
     coord = max(1.0, np.abs(x).max(), np.abs(y).max())
     determined = h["lam"] > 0 and h["gap"] > 1e-3 * h["lam"]
     info = {"determined": bool(determined), "outcome": res[0]}
+    if res[0] == "crashed":
+        return ["umeyama_alignment raised %s - neither a transformation nor "
+                "the GeometryException that refuses degenerate input" %
+                res[1]], info
     if res[0] == "refused":
         if determined and not may_refuse and not must_refuse:
             msgs.append("refused although the point sets determine the "
